@@ -8,6 +8,7 @@
 #include "map_ghost.h"
 #include "trie.c"
 
+#define TR_NCHILD 30
 static struct trie_node *tr_node_new(struct trie *t, struct trie_node *parent, char ch, char *key, void *value, uint32_t refcount)
 {
 	struct trie_node *n = malloc(sizeof(*n));
@@ -27,10 +28,12 @@ static struct trie_node *tr_node_new(struct trie *t, struct trie_node *parent, c
 	qb_list_init(n->notifier_head);
 	if (parent) {
 		if (parent->children == NULL) {
-			parent->num_children = 256;
-			parent->children = malloc(256 * sizeof(struct trie_node *));
+			/* what new_child_node allocates for characters with index < 30 (printable ASCII >= 'b') */
+			parent->num_children = TR_NCHILD;
+			parent->children = malloc(TR_NCHILD * sizeof(struct trie_node *));
 			ASSUME(parent->children != NULL);
-			for (i = 0; i < 256; i++) {
+			ASSUME(n->idx < TR_NCHILD);
+			for (i = 0; i < TR_NCHILD; i++) {
 				parent->children[i] = NULL;
 			}
 		}
